@@ -45,7 +45,7 @@ example : AllListedMatching (asc "SHA-256-Digest") [(asc "a", asc "D")]
 
 /-- full strength, not proved: running `updateManifest` on the archive it produced returns the same manifest bytes with
     `changed = false` (needs: `parseManifest (dump fm)` is not malformed and lists every section of `fm` with the
-    digests `updateLoop` wrote, i.e. the section-level round trip `jar_fold_unfold_section_full`).  Exercised on the
+    digests `updateLoop` wrote; the section-level round trip is now proved: `C05.jar_fold_unfold_section`).  Exercised on the
     real code by the `resign` ops (`resign=same`) and on the model by the `again=` tag. -/
 def jar_update_idempotent_full : Prop :=
   ∀ (hash : Bytes → Bytes) (sign : Bytes → Bytes) (hn cb : Bytes) (so apk : Bool) (kk : Nat) (alias : Bytes)
